@@ -433,7 +433,7 @@ func runGenerator(doc *generator.Doc, cfg *generator.Config, dir string) (res st
 }
 
 // mutate applies a random structural change; returns a description. Identifiers stay unique and Go-safe.
-func mutate(r *rand.Rand, doc *generator.Doc, cfg *generator.Config) string {
+func mutate(r *rand.Rand, doc *generator.Doc, cfg *generator.Config, kind int) string {
 	pickComp := func() *generator.Component {
 		all := append(append([]*generator.Component{}, doc.Messages...), doc.Components...)
 		return all[r.Intn(len(all))]
@@ -445,7 +445,10 @@ func mutate(r *rand.Rand, doc *generator.Doc, cfg *generator.Config) string {
 		}
 		return out
 	}
-	switch r.Intn(12) {
+	if kind < 0 {
+		kind = r.Intn(12)
+	}
+	switch kind {
 	case 0: // remove a member
 		c := pickComp()
 		if len(c.Members) > 1 {
@@ -589,6 +592,94 @@ func one(o *hout.Out, tmp string, idx int, desc string, doc *generator.Doc, cfg 
 	o.Count("C12.ok")
 	o.Nontrivial("C12", desc+strconv.Itoa(len(lines)))
 	o.Sample("C12", fmt.Sprintf("%s: %d declarations, package %s, e.g. %v", desc, len(lines), pkg, lines[len(lines)/2]))
+	// accessors are bound to their own member: the item at the accessor's index in the parent's constructor is that
+	// member; and every field item has the Go type the type mapping gives for the field's schema type
+	{
+		items := map[string][]string{}
+		for _, l := range lines {
+			f := strings.SplitN(l, " : ", 2)
+			if len(f) == 2 {
+				hd := strings.Fields(f[0])
+				if len(hd) >= 2 && (hd[0] == "msg" || hd[0] == "comp" || hd[0] == "group" || hd[0] == "entry") {
+					if f[1] == "" {
+						items[hd[0]+" "+hd[1]] = nil
+					} else {
+						items[hd[0]+" "+hd[1]] = strings.Split(f[1], ",")
+					}
+				}
+			}
+		}
+		lookup := func(P string) ([]string, bool) {
+			for _, k := range []string{"msg ", "comp ", "entry ", "group "} {
+				if it, ok := items[k+P]; ok {
+					return it, true
+				}
+			}
+			return nil, false
+		}
+		ftype := map[string]string{}
+		isEnum := map[string]bool{}
+		for _, f := range doc.Fields {
+			ftype[f.Name] = f.Type
+			isEnum[f.Name] = len(f.Values) > 0 // the last definition of a name wins, as in the generator
+		}
+		cast := map[string]string{}
+		for _, t := range cfg.Types {
+			cast[t.Name] = t.CastType
+		}
+		badAcc, badType := "", ""
+		for _, l := range lines {
+			if !strings.HasPrefix(l, "acc ") {
+				continue
+			}
+			var pn, rest string
+			fmt.Sscanf(l, "acc %s %s", &pn, &rest)
+			dot := strings.Index(pn, ".")
+			P, N := pn[:dot], pn[dot+1:]
+			idx := -1
+			fmt.Sscanf(rest, "idx=%d", &idx)
+			it, ok := lookup(P)
+			if !ok {
+				continue
+			}
+			if idx < 0 || idx >= len(it) {
+				if badAcc == "" {
+					badAcc = fmt.Sprintf("%s: index %d outside the %d members of %s", pn, idx, len(it), P)
+				}
+				continue
+			}
+			parts := strings.Split(it[idx], ":")
+			name := ""
+			if len(parts) >= 2 {
+				name = strings.TrimPrefix(parts[1], "Field")
+			}
+			if name != N && badAcc == "" {
+				badAcc = fmt.Sprintf("%s: index %d of %s holds %s", pn, idx, P, it[idx])
+			}
+		}
+		for key, it := range items {
+			for _, x := range it {
+				parts := strings.Split(x, ":")
+				if len(parts) == 3 && parts[0] == "kv" {
+					fname := strings.TrimPrefix(parts[1], "Field")
+					want, ok := cast[ftype[fname]]
+					if ok && isEnum[fname] && want != "Bool" {
+						want = "String" // fields with enumerated values are carried as their Enum (string) type
+					}
+					if ok && want != parts[2] && badType == "" {
+						badType = fmt.Sprintf("%s: member %s is built as fix.%s, the type mapping gives %s (schema type %s)", key, fname, parts[2], want, ftype[fname])
+					}
+				}
+			}
+		}
+		if badAcc != "" {
+			o.Fail("C12", "accessor-bound-to-another-member", desc+": "+badAcc)
+		}
+		if badType != "" {
+			o.Fail("C12", "member-type-not-from-mapping", desc+": "+badType)
+		}
+		o.Count("C12.declaration-oracles")
+	}
 	// every occurrence of a repeating group in the schema must get a type with *its* members (known finding F-C12-groups:
 	// the generator keeps one type per group name)
 	emitted := map[string]string{}
@@ -798,8 +889,11 @@ func main() {
 			base, bcfg = clone(big), cloneCfg(bigT)
 		}
 		var descs []string
-		for k := 0; k < 1+r.Intn(3); k++ {
-			descs = append(descs, mutate(r, base, bcfg))
+		// the first mutation cycles through every kind (so that every run, however short, covers them all);
+		// further ones are random
+		descs = append(descs, mutate(r, base, bcfg, i%11))
+		for k := 0; k < r.Intn(3); k++ {
+			descs = append(descs, mutate(r, base, bcfg, -1))
 		}
 		c := compiled < *build-2
 		if c {
